@@ -1188,7 +1188,10 @@ class Machine:
             if 'factors' in o['model']:
                 for ent in o['model']['factors']:
                     other = o['real'].factors.get(ent[0])
-                    if other is not None and other is not fac and getattr(other, 'weights', None) is fac.weights:
+                    # (only factor objects the caller itself built over the same weights object share it legitimately; the
+                    #  factors of a copy are objects the library made and must be independent)
+                    if other is not None and other is not fac and getattr(other, 'weights', None) is fac.weights \
+                            and any(other is f_['real'] for f_ in self.facs):
                         ent[1] = M.s_factor(other)
         return (oi, None, 'ok', False)
 
